@@ -7,7 +7,7 @@ performing one or more transformation-passes.
 """
 
 # Std-Lib Imports
-from typing import List, Type, TypeVar
+from typing import ClassVar, List, Tuple, Type, TypeVar
 
 # Local imports
 from ..datatype import datatype
@@ -85,17 +85,7 @@ class Elaborator:
         tops: List[Elaboratable] = top if isinstance(top, List) else [top]
 
         # Modules which an earlier, failed run left part-way through elaboration are still editable, and may have been edited since.
-        # Forget that they have been through any pass, so that they are elaborated - and checked - again from the start.
-        # (Unless we are called from inside a running elaboration, e.g. by a generator body; its bookkeeping is left alone.)
-        # Modules on which a pass failed are not among them: those stay as they are, and report their failure again when that pass is reached.
-        caches = [elabpass.CLASS_LEVEL_CACHE for elabpass in self.passes]
-        if not any(cache.pending for cache in caches):
-            for cache in caches:
-                # Only the modules this pass has handled since the last run began can be among them.
-                for m in cache.recent:
-                    if m._elaborated is None and not any(m in c.failed for c in caches):
-                        cache.done.discard(m)
-                cache.recent.clear()
+        self.forget_unfinished()
 
         # Pass `tops` through each of our passes, in order
         for elabpass in self.passes:
@@ -105,6 +95,31 @@ class Elaborator:
         if not isinstance(top, List):
             return tops[0]
         return tops
+
+    # The caches last looked through by `forget_unfinished`
+    last_looked_through: ClassVar[Tuple[int, ...]] = ()
+
+    def forget_unfinished(self) -> None:
+        """Forget that modules which were never marked as elaborated have been through any of our passes,
+        so that they are elaborated - and checked - again from the start.
+        Modules on which one of our passes failed are not among them: those stay as they are, and report their failure again when that pass is reached.
+        Nothing is forgotten when called from inside a running elaboration, e.g. by a generator body."""
+
+        caches = [elabpass.CLASS_LEVEL_CACHE for elabpass in self.passes]
+        if any(cache.pending for cache in caches):
+            return
+
+        # Since these same caches were last looked through, only modules handled in the meantime can be unfinished.
+        # After any other list of passes has been at work, look through everything.
+        key = tuple(id(cache) for cache in caches)
+        everything = key != Elaborator.last_looked_through
+        Elaborator.last_looked_through = key
+
+        for cache in caches:
+            for m in list(cache.done if everything else cache.recent):
+                if m._elaborated is None and not any(m in c.failed for c in caches):
+                    cache.done.discard(m)
+            cache.recent.clear()
 
 
 # Set the module-scope elaborator
